@@ -228,4 +228,38 @@ def read (input : List Nat) : Result :=
     if c ≠ 10 then { calls := [.initProgram inc], err := some a2.line }
     else stepsLoop (a2.rest.length + 1) inc a2 [.initProgram inc]
 
+/-! #### reading step by step: `accept`, then `do parse(Incremental) while (more())` -/
+
+/-- one `parse(Incremental)`: one step (`doParse`), `stream()->skipWs()`, `require(!more() || incremental())`. -/
+def parseInc (inc : Bool) (a : AS) : List Call × Except Nat AS :=
+  let r := stepLoop (a.rest.length + 1) a []
+  match r.2 with
+  | .error l => (.beginStep :: r.1, .error l)
+  | .ok a1 =>
+    let m := more a1.skipWs
+    if m.1 && !inc then (.beginStep :: r.1 ++ [.endStep], .error m.2.line)
+    else (.beginStep :: r.1 ++ [.endStep], .ok m.2)
+
+/-- the client's loop around `parse(Incremental)`; its own `more()` decides whether another step is read. -/
+def incLoop : Nat → Bool → AS → List Call → Result
+  | 0, _, _, acc => { calls := acc, err := some 0 }
+  | f + 1, inc, a, acc =>
+    let p := parseInc inc a
+    match p.2 with
+    | .error l => { calls := acc ++ p.1, err := some l }
+    | .ok a1 =>
+      let m := more a1
+      if m.1 then incLoop f inc m.2 (acc ++ p.1) else { calls := acc ++ p.1, err := none }
+
+/-- `reader.accept(str)` followed by the step-by-step loop. -/
+def readInc (input : List Nat) : Result :=
+  let a := AS.init input
+  match header a with
+  | none => { calls := [], err := some (a.skipWs).line }
+  | some (.error l) => { calls := [], err := some l }
+  | some (.ok (inc, a1)) =>
+    let (c, a2) := a1.get
+    if c ≠ 10 then { calls := [.initProgram inc], err := some a2.line }
+    else incLoop (a2.rest.length + 1) inc a2 [.initProgram inc]
+
 end PotasscoVerif.AspifIn
